@@ -320,8 +320,8 @@ def _xfilter(accumulator, test_range, condition, operating_range):
                 _ = lambda v: re.escape(v.replace('~?', '?').replace('~*', '*'))
                 match = re.compile(''.join(sum(zip(
                     map(_, _re_condition.split(condition)),
-                    tuple(map(lambda v: '.%s' % v, it)) + ('',)
-                ), ()))).match
+                    tuple(map({'?': '.', '*': '.*'}.get, it)) + ('',)
+                ), ())), re.IGNORECASE | re.DOTALL).fullmatch
                 f = lambda v: isinstance(v, str) and bool(match(v))
                 b = np.vectorize(f, otypes=[bool])(test_range['raw'])
                 try:
@@ -346,9 +346,16 @@ def _xfilter(accumulator, test_range, condition, operating_range):
     from .operators import _get_type_id
     type_id, operator = _get_type_id(condition), LOGIC_OPERATORS[operator]
 
-    @functools.lru_cache()
+    if type_id == 1:  # Text is compared ignoring the case.
+        condition = condition.upper()
+
+    @functools.lru_cache(typed=True)
     def check(value):
-        return _get_type_id(value) == type_id and operator(value, condition)
+        if _get_type_id(value) != type_id:
+            return False
+        if type_id == 1:
+            value = value.upper()
+        return operator(value, condition)
 
     if is_number(condition):
         if 'num' not in test_range:
